@@ -17,10 +17,10 @@ type Reader struct {
 // Box is an Inst with the uniform capabilities the nested enumerations need.
 type Box interface {
 	Inst
-	Obj() any         // the real container (pointer)
-	Opts() CanonOpts  // canonicalisation options of this container
+	Obj() any          // the real container (pointer)
+	Opts() CanonOpts   // canonicalisation options of this container
 	NewIter() *IterDyn // fresh iterator over the real container, nil if it has none
-	ExpSeq() []Pair   // iteration sequence according to the reference
+	ExpSeq() []Pair    // iteration sequence according to the reference
 	Readers() []Reader
 	Fresh() Box // fresh empty container of the same configuration (own reference)
 	// Observe renders the complete observable state through the public API.
@@ -257,7 +257,7 @@ func kvLoadRef[K comparable, V comparable](b *kvBox[K, V], data []byte) bool {
 		}
 		kf = kl
 	}
-	if b.sys.bidi() && len(kl) <= 5 {
+	if (b.sys.bidi() || strings.HasPrefix(b.sys.CmpN, "coarse") || strings.HasPrefix(b.sys.VCmpN, "coarse")) && len(kl) <= 5 {
 		permute(kl, func(p []K) { cands = append(cands, fold(p)) })
 	} else {
 		cands = append(cands, fold(kl), fold(kf))
